@@ -65,6 +65,14 @@ RELS = [(0, 1, "Omega == kappa_X(PEDKR)"), (2, 3, "kappa == kappa_X(ED,KR)"), (4
 def cases(rng, tier):
     for sq in gen.CLAMP_BAND + ["PEAGSTQNLVDK", "KEWSTQQYWD", "DRGMGCYFPP", "PPVYFMWQR", "SAKRKKRG", "KSCAVCK", "GKRKKRQ"]:
         yield Case(block(sq, rng), {"kind": "reporting-band"})
+    # residues of only ONE of the two groups, at least 18 residues of neither, and more group residues than others (both orientations)
+    for _ in range(10 if tier == "quick" else 80):
+        nother = rng.randint(18, 30)
+        ngrp = rng.randint(int(nother * 1.5) + 1, nother * 3)
+        for grp in ("KR", "DE"):
+            l = [rng.choice(grp) for _ in range(ngrp)] + [rng.choice("GSQNTAYHCMLIVFW") for _ in range(nother)]
+            rng.shuffle(l)
+            yield Case(block("".join(l), rng), {"kind": "one-group-many-others"})
     # the same query several times in a row on one object
     for c in gen.repeated_call_cases(rng, 8 if tier == "quick" else 60, ['omega', 'kappaX s000045,s000044 s00004b,s000052'], gen.CLAMP_BAND[:8] if True else ()):
         yield c
